@@ -258,7 +258,7 @@ mod n {
     // must not change
     // ------------------------------------------------------------------------------------------------------------
     fn tests_root() -> PathBuf {
-        Path::new(env!("CARGO_MANIFEST_DIR")).join("../hulc_tests/tests")
+        crate_dir(env!("CARGO_MANIFEST_DIR")).join("../hulc_tests/tests")
     }
 
     fn files_with_ext(dir: &Path, ext: &str, out: &mut Vec<PathBuf>) {
@@ -619,6 +619,9 @@ mod n {
                 (3, "X" | "Y" | "Z" | "WIDTH" | "HEIGHT" | "SETBACK", Some(v)) => v.parse::<f32>().ok().map(|x| Some(format!("{}", x + 0.125))),
                 (4, "CONDUCTIVITY" | "DENSITY" | "SPECIFIC-HEAT" | "RESISTANCE" | "GLASS-CONDUCTANCE" | "SHADING-COEF" | "FRAME-CONDUCT" | "FRAME-ABS" | "FRAME-WIDTH" | "PORCENTAGE" | "INF-COEF" | "TTL" | "FRSI" | "LONG-TOTAL", Some(v)) => v.parse::<f32>().ok().map(|x| Some(format!("{}", x * 0.5))),
                 (5, "SPECIFIC-HEAT" | "perteneceALaEnvolventeTermica" | "TransmisividadJulio" | "VAPOUR-DIFFUSIVITY-FACTOR" | "THICKNESS" | "TILT", Some(v)) if !v.starts_with('(') => Some(None),
+                // rewrites 8 / 9: spaces without a thermostat / loads reference of their own (old LIDER files): both default to SPACE-TYPE
+                (8, "SYSTEM-CONDITIONS", Some(_)) => Some(None),
+                (9, "SPACE-CONDITIONS", Some(_)) => Some(None),
                 _ => None,
             };
             // rewrite 7: a Z of its own on every SPACE (HULC leaves it out: the space then sits on its floor)
@@ -672,9 +675,9 @@ mod n {
         files_with_ext(&tests_root(), "ctehexml", &mut files);
         files_with_ext(&tests_root().join("liderdata"), "cte", &mut files);
         let corpus: Vec<(String, String)> = files.iter().filter_map(|p| Some((p.file_name().unwrap().to_string_lossy().to_string(), bdl_text(p)?))).collect();
-        drive("C18.typed", "the 68 shipped BDL texts, as shipped and with 7 whole-file rewrites of written values (envelope flag SI <-> NO, space TYPE rotated, every X / Y / Z / WIDTH / HEIGHT / SETBACK shifted, every material / glazing / frame number halved, optional attributes incl. TILT removed so that the legacy defaults apply, overhangs / fins written on every window, a Z of its own written on every space): every window, wall, space, polygon, material, layer set, glazing, frame, window construction, rectangular shade and thermal bridge of bdl::Data against the attribute values of its own block", |c| {
+        drive("C18.typed", "the 68 shipped BDL texts, as shipped and with 9 whole-file rewrites of written values (envelope flag SI <-> NO, space TYPE rotated, every X / Y / Z / WIDTH / HEIGHT / SETBACK shifted, every material / glazing / frame number halved, optional attributes incl. TILT removed so that the legacy defaults apply, overhangs / fins written on every window, a Z of its own written on every space, every space without its SYSTEM-CONDITIONS / without its SPACE-CONDITIONS reference): every window, wall, space, polygon, material, layer set, glazing, frame, window construction, rectangular shade and thermal bridge of bdl::Data against the attribute values of its own block", |c| {
             let (name, text) = c.of(&corpus);
-            let rewrite = c.pick(8);
+            let rewrite = c.pick(10);
             c.note(format!("{} rewrite {}", name, rewrite));
             let text = rewrite_values(&text, rewrite);
             let (blocks, data) = match (build_blocks(&text), Data::new(&text)) {
@@ -737,6 +740,9 @@ mod n {
                             c.check("C18.typed.space", Some(s.stype.clone()) == st(b, "TYPE") && s.x == f(b, "X").unwrap_or(0.0) && s.y == f(b, "Y").unwrap_or(0.0) && Some(s.multiplier) == f(b, "MULTIPLIER") && Some(s.floor.clone()) == b.parent && Some(s.power) == f(b, "POWER"), || format!("{}: space {} = {:?} but the block says {:?} under {:?}", name, b.name, (&s.stype, s.x, s.y, s.multiplier, &s.floor, s.power), b.attrs.0, b.parent));
                             // a space sits on its floor: z = Z of the FLOOR block + the space's own Z (0 when not written)
                             let floor_z = b.parent.as_ref().and_then(|fl| blocks.iter().find(|x| x.btype == Floor && x.name == *fl)).and_then(|fb| f(fb, "Z")).unwrap_or(0.0);
+                            // the conditions a space names; absent in old LIDER files, where both are its SPACE-TYPE
+                            let stype_written = st(b, "SPACE-TYPE");
+                            c.check("C18.typed.space.conditions", Some(s.spacetype.clone()) == stype_written && Some(s.spaceconds.clone()) == st(b, "SPACE-CONDITIONS").or(stype_written.clone()) && Some(s.systemconds.clone()) == st(b, "SYSTEM-CONDITIONS").or(stype_written.clone()), || format!("{}: space {}: type / loads / thermostat = {:?} but the block says {:?} / {:?} / {:?}", name, b.name, (&s.spacetype, &s.spaceconds, &s.systemconds), st(b, "SPACE-TYPE"), st(b, "SPACE-CONDITIONS"), st(b, "SYSTEM-CONDITIONS")));
                             c.check("C18.typed.space.z", s.z == floor_z + f(b, "Z").unwrap_or(0.0), || format!("{}: space {}: z {} but its floor is at {} and the block says Z = {:?}", name, b.name, s.z, floor_z, f(b, "Z")));
                             let inside_want = match st(b, "perteneceALaEnvolventeTermica").as_deref() {
                                 Some("SI") => true,
@@ -797,6 +803,20 @@ mod n {
                         }
                     }
                     BuildingShade => {
+                        // a shade given by its corners: V1, V2, ... in the order of their numbers (V10 after V9)
+                        if let (Some(sh), Some(_)) = (data.shadings.iter().find(|s| s.name == b.name), st(b, "V1")) {
+                            let mut written: Vec<Vec<f32>> = vec![];
+                            let mut k = 1;
+                            while let Some(t) = st(b, &format!("V{}", k)) {
+                                written.push(t.trim_matches(&[' ', '(', ')'] as &[_]).split(',').filter_map(|x| x.trim().parse().ok()).collect());
+                                k += 1;
+                            }
+                            let ok = matches!(&sh.vertices, Some(v) if v.len() == written.len() && v.iter().zip(written.iter()).all(|(p, w)| w.len() == 3 && p.x == w[0] && p.y == w[1] && p.z == w[2]));
+                            c.check("C18.typed.shade.vertices", ok, || format!("{}: shade {} has corners {:?} but the block writes {:?}", name, b.name, sh.vertices, written));
+                            if written.len() >= 10 {
+                                c.nontrivial(format!("{} {} corners", b.name, written.len()));
+                            }
+                        }
                         if let (Some(sh), Some(_)) = (data.shadings.iter().find(|s| s.name == b.name), f(b, "X")) {
                             c.check("C18.typed.shade", matches!(&sh.geometry, Some(g) if Some(g.x) == f(b, "X") && Some(g.y) == f(b, "Y") && Some(g.z) == f(b, "Z") && Some(g.width) == f(b, "WIDTH") && Some(g.height) == f(b, "HEIGHT") && Some(g.azimuth) == f(b, "AZIMUTH") && Some(g.tilt) == f(b, "TILT")) && Some(sh.tran) == f(b, "TRAN") && Some(sh.refl) == f(b, "REFL"), || format!("{}: shade {} = {:?} but the block says {:?}", name, b.name, sh.geometry, b.attrs.0));
                         }
